@@ -452,6 +452,18 @@ def run(ctx, prog, res):
     r6.floor(6)
 
     # W --------------------------------------------------------------------------------------
+    # R1 (continued): whatever serialize wrote is read back - deserialize fails only when the reader fails. No error is
+    # made up from the data (a validity guard on decoded values refuses calendars that serialize accepted)
+    n_de = 0
+    for fid, fx in sorted(prog.fns.items()):
+        if fx.crate != "compact_calendar" or not re.search(r"::deserialize($|::\{closure)", fid):
+            continue
+        n_de += 1
+        made = [flow.call_name(t) for _, t in fx.calls() if re.search(r"io::error::Error::(new|other|from_raw_os_error)$|From<std::io::error::ErrorKind>>::from$|io::error::Error as core::convert::From<.*ErrorKind", flow.call_name(t) or "")]
+        r1.check(not made, {"fn": fid.split("::")[-2] + "::deserialize", "errors_made_up_from_the_data": 0}, "C15.R1:deserialize-rejects:%s" % fid.split("::")[-2],
+                 "%s constructs an I/O error of its own (%s): a calendar that serialize wrote can be refused when it is read back (e.g. one whose window ends in the last representable year)" % (fid, [m.split("::")[-1] for m in made]), lib.where_of(fx))
+    r1.check(n_de >= 3, {"deserialize_functions": n_de}, "C15.R1:deserialize-rejects:ANCHOR", "ANCHOR: expected deserialize for the three calendar types, found %d" % n_de)
+
     # R7 -------------------------------------------------------------------------------------
     r7 = res.rule("C15.R7", "bit positions of a month: day d is bit d-1; contains(d) <=> d is a member, first() is the least member, first_after(d) the least member strictly after d, count() the number of members. CompactMonth's four lookups are extracted per path from MIR (peval) and evaluated for every day 1..=31 on the empty month, the full month, every single-day month and every two-day month (quick tier: adjacent pairs only) - exhaustive in the day, all bit positions covered, months with three or more days only through the full month")
     import itertools
